@@ -51,6 +51,26 @@ func (c *Ctx) factsAt(root ast.Node, target ast.Node) []fact {
 			} else {
 				list = p.(*ast.CaseClause).Body
 			}
+			if cc, ok := p.(*ast.CaseClause); ok {
+				// tagless switch: this clause's condition holds, earlier clauses' conditions do not
+				if blk, ok := pm[cc].(*ast.BlockStmt); ok {
+					if sw, ok := pm[blk].(*ast.SwitchStmt); ok && sw.Tag == nil {
+						init, _ := sw.Init.(*ast.AssignStmt)
+						for _, other := range blk.List {
+							oc := other.(*ast.CaseClause)
+							if oc == cc {
+								if len(cc.List) == 1 {
+									facts = append(facts, fact{cc.List[0], true, init})
+								}
+								break
+							}
+							for _, e := range oc.List {
+								facts = append(facts, fact{e, false, init})
+							}
+						}
+					}
+				}
+			}
 			for _, s := range list {
 				if s == cur {
 					break
@@ -60,6 +80,8 @@ func (c *Ctx) factsAt(root ast.Node, target ast.Node) []fact {
 					facts = append(facts, fact{ifs.Cond, false, init})
 				}
 			}
+		case *ast.SwitchStmt:
+			_ = p
 		case *ast.IfStmt:
 			init, _ := p.Init.(*ast.AssignStmt)
 			if cur == ast.Node(p.Body) {
@@ -213,7 +235,8 @@ func (c *Ctx) bindFuncs() []*ast.FuncDecl {
 func ruleNoCoercion(c *Ctx, r *Report, rule string) {
 	r.rule(rule, 1, "the library uses no reflect operation that converts a value, re-slices / appends to / copies into the caller's slice, or panics on the wrong kind where an error-returning variant exists")
 	n := 0
-	for obj, fd := range c.funcDecls {
+	for _, it := range c.sortedDecls() {
+		obj, fd := it.obj, it.fd
 		if obj.Pkg() == nil || obj.Pkg().Path() != bclPath || fd.Body == nil {
 			continue
 		}
@@ -232,8 +255,16 @@ func ruleNoCoercion(c *Ctx, r *Report, rule string) {
 }
 
 // ruleReflectGuards: each partial reflect call in Bind's code is guarded.
-func ruleReflectGuards(c *Ctx, r *Report, rule string) {
-	r.rule(rule, 14, "every reflect call in copyBlocks/copyBlock with a panicking precondition is dominated by the check that establishes it: Elem after Kind()==Pointer; Type().Elem() after Kind()==Slice; MakeSlice on that slice type; ValueOf(x).Type() after x != nil; Set after CanSet and AssignableTo; copyBlock (NumField, Field, FieldByNameFunc, FieldByIndexErr need a struct) only on values whose Kind()==Struct was checked; x.(Block) under AssignableTo(blockType)")
+func ruleReflectGuards(c *Ctx, r *Report, rule string) { ruleReflectGuardsMode(c, r, rule, false) }
+
+// ruleReflectGuardsMode: with panicOnly, the fresh-slice obligations (which
+// concern what the target holds after an error, not crashes) are left to C15/C05.
+func ruleReflectGuardsMode(c *Ctx, r *Report, rule string, panicOnly bool) {
+	min := 14
+	if panicOnly {
+		min = 11
+	}
+	r.rule(rule, min, "every reflect call in copyBlocks/copyBlock with a panicking precondition is dominated by the check that establishes it: Elem after Kind()==Pointer; Type().Elem() after Kind()==Slice; MakeSlice on that slice type; ValueOf(x).Type() after x != nil; Set after CanSet and AssignableTo; copyBlock (NumField, Field, FieldByNameFunc, FieldByIndexErr need a struct) only on values whose Kind()==Struct was checked; x.(Block) under AssignableTo(blockType)")
 	funcs := c.bindFuncs()
 	if len(funcs) != 2 {
 		r.bad(rule, "anchors", "copyBlocks / copyBlock not found", "")
@@ -283,6 +314,9 @@ func ruleReflectGuards(c *Ctx, r *Report, rule string) {
 			}
 			check(okk, "copyBlocks", key("Type.Elem"), "after Kind() == Slice", "Type.Elem() is reached without a dominating Kind() == Slice check (panics for struct, int, …)", call.Pos())
 		case "reflect.MakeSlice":
+			if panicOnly {
+				return
+			}
 			okk := false
 			if inner, ok := stripParens(call.Args[0]).(*ast.CallExpr); ok && c.calleeName(inner) == "reflect.Value.Type" {
 				if obj := recvObj(inner); obj != nil && c.hasKindFact(facts, obj, "Slice") {
@@ -296,6 +330,9 @@ func ruleReflectGuards(c *Ctx, r *Report, rule string) {
 			}
 			check(okk && lenOK, "copyBlocks", key("MakeSlice"), "fresh slice of the target's type, len = cap = number of blocks", "reflect.MakeSlice must build a fresh slice of the (checked) slice type with length and capacity len(blocks)", call.Pos())
 		case "reflect.Value.Index":
+			if panicOnly {
+				return
+			}
 			// newSlice.Index(i), i ranging over the blocks the slice was sized for
 			obj := recvObj(call)
 			def, n := c.singleDef(copyBlocks.Body, obj)
@@ -305,6 +342,9 @@ func ruleReflectGuards(c *Ctx, r *Report, rule string) {
 			}
 			check(okk, "copyBlocks", key("Index"), "index into the slice just made, within its length", "Value.Index is used on something other than the freshly made slice", call.Pos())
 		case "reflect.Value.Set":
+			if panicOnly {
+				return
+			}
 			obj := recvObj(call)
 			okk := obj != nil && c.hasKindFact(facts, obj, "Slice")
 			if okk {
@@ -601,7 +641,8 @@ func ruleErrorsPropagate(c *Ctx, r *Report, rule string) {
 func ruleMapRange(c *Ctx, r *Report, rule string) {
 	r.rule(rule, 1, "every `range` over a map in the library only collects the keys into a slice that is sorted (sort.Strings) before use: no behaviour depends on map iteration order")
 	n := 0
-	for obj, fd := range c.funcDecls {
+	for _, it := range c.sortedDecls() {
+		obj, fd := it.obj, it.fd
 		if obj.Pkg() == nil || (obj.Pkg().Path() != bclPath && obj.Pkg().Path() != cmdPath) || fd.Body == nil {
 			continue
 		}
